@@ -47,6 +47,11 @@ def doc_accepts(kinds, bad):
     return bad is None and len(kinds) > 0
 
 
+# an ill-typed value for one parameter of the kinds whose step class validates its parameters with a schema
+ILL_TYPED = {"matching_cost": {"window_size": "three"}, "aggregation": {"cbca_intensity": "x"}, "filter": {"filter_size": "three"},
+             "validation": {"cross_checking_threshold": "x"}, "multiscale": {"num_scales": "x"}}
+
+
 class History:
     """Drives one real machine object through a history of operations and records the trace."""
 
@@ -71,10 +76,18 @@ class History:
             return None
         return {i: {"interpolated_disparity": self.interp} for i, k in enumerate(kinds) if k == "validation"}
 
-    def check(self, kinds, first_suffix=False, bad=None, suffix_at=()):
+    def check(self, kinds, first_suffix=False, bad=None, suffix_at=(), ill=None):
+        """bad: index of a step naming an unknown method; ill: index of a step with an ill-typed parameter (refused by the step's
+        own json_checker schema, i.e. by an exception that is NOT a sequencing error)"""
         from transitions import MachineError
         from pandora.check_configuration import check_pipeline_section
-        cfg, names = build.pipeline_cfg(kinds, first_suffix=first_suffix, bad=bad, suffix_at=suffix_at, overrides=self._overrides(kinds))
+        ov = dict(self._overrides(kinds) or {})
+        if ill is not None:
+            ov[ill] = dict(ov.get(ill, {}), **ILL_TYPED[kinds[ill]])
+            bad_json = ill
+        else:
+            bad_json = bad
+        cfg, names = build.pipeline_cfg(kinds, first_suffix=first_suffix, bad=bad, suffix_at=suffix_at, overrides=ov or None)
         idx_of = {n: i + 1 for i, (n, _, _) in enumerate(names)}
         checked = None
         with MachineTracer(self.machine) as tr:
@@ -87,7 +100,7 @@ class History:
                 end = {"ev": "CheckEnd", "outcome": "rejected", "err": "other", "exc": repr(e)[:200]}
             evs = [{"ev": "CheckCb", "idx": idx_of.get(e["name"], 0), "kind": e["kind"]} for e in tr.events
                    if e["ev"] == "CheckCb"]
-        op = {"op": "check", "pipeline": self._pipe_json(names, bad), "ns": 1, "events": evs + [end],
+        op = {"op": "check", "pipeline": self._pipe_json(names, bad_json), "ns": 1, "events": evs + [end],
               "post": project_machine(self.machine), "names": [n for n, _, _ in names]}
         self.ops.append(op)
         return checked
@@ -217,6 +230,14 @@ def gen_histories(tier, rng):
         hist.append(("stale_check", (a, b), False, None))
         hist.append(("stale_run", (a, b), False, None))
         hist.append(("stale_failed", (a, b), False, None))
+    # a check refused for an ILL-TYPED PARAMETER (an exception that is not a sequencing error) at every eligible position, then a
+    # legal pipeline checked and run on the same machine object
+    k = 0
+    for p in (accepted + longer)[:: (2 if tier == "quick" else 1)]:
+        pos = [i for i, kd in enumerate(p) if kd in ILL_TYPED]
+        for i in (pos if tier != "quick" else [pos[k % len(pos)]]):
+            k += 1
+            hist.append(("ill_then_good", (p, (accepted + longer)[k % len(accepted + longer)]), False, i))
     return hist
 
 
@@ -327,6 +348,12 @@ def run(tier):
             elif shape == "stale_failed":
                 a, b = p
                 h.check(a + ("matching_cost",))   # rejected after the validation step was visited
+                c = h.check(b)
+                if c is not None:
+                    h.run(b, c)
+            elif shape == "ill_then_good":
+                a, b = p
+                h.check(a, ill=bad)
                 c = h.check(b)
                 if c is not None:
                     h.run(b, c)
